@@ -8,7 +8,7 @@ from props import c03
 PROPERTY = 'C11'
 LEVEL = 'exploration'
 RULE = ('G1 programs under hostile layout (multi-line strings and comments, LF/CR/CRLF/U+2028/U+2029 breaks, tabs and '
-        'exotic white space) and repository snippets, parsed with and without comment capture. The calmjs tree and '
+        'exotic white space, comments holding text that is not in normalisation form C) and repository snippets, parsed with and without comment capture. The calmjs tree and '
         'the reference tree (structurally identical, else the case belongs to C03 and is skipped) are walked in '
         'parallel. For every node: (1) (lineno, colno) == reference line/column of lexpos; (2) lexpos is the start of '
         'the node\'s first token, or - for binary, assignment, conditional, comma, postfix, accessor, property-'
